@@ -16,6 +16,7 @@ import (
 	"os"
 	"path/filepath"
 	"sort"
+	"strings"
 	"time"
 
 	"github.com/pgavlin/dawn/pickle"
@@ -29,6 +30,28 @@ func c15Gen(r *rand.Rand, tier string) any {
 	sc := &histScenario{Spec: genProject(r, o), Proc: genProc(r)}
 	sc.Proc.Strategy = simrt.StratFIFO
 	sc.Proc.SplitWrites = false
+	if r.IntN(2) == 0 {
+		// one source file named from two modules: its (damaged) record is read while the other
+		// module may be asking for the same source
+		p := sc.Spec
+		for a := range p.Targets {
+			for b := range p.Targets {
+				ta, tb := &p.Targets[a], &p.Targets[b]
+				if ta.Pkg == tb.Pkg || len(ta.Sources) == 0 {
+					continue
+				}
+				full := p.sourceRel(ta, ta.Sources[0])
+				if c, ok := p.Files[full]; !ok || strings.HasPrefix(c, linkMark) {
+					continue
+				}
+				if rel, err := filepath.Rel("/"+pkgDir(tb.Pkg), "/"+full); err == nil {
+					tb.Sources = append(tb.Sources, rel)
+				}
+				goto shared
+			}
+		}
+	shared:
+	}
 	shadow := sc.clone().Spec
 	label := pickLabel(r, shadow)
 	sc.Ops = append(sc.Ops, opSpec{Op: "build", Label: label})
@@ -549,6 +572,10 @@ func c15Exec(scAny any, c *simcheck.Ctx) *simcheck.Violation {
 			op.Index = preferIndex
 			pc := h.pc
 			pc.WatchdogS = 25
+			if idx%3 == 1 {
+				// loaders and targets interleave freely while the damaged record is read
+				pc.Strategy = simrt.StratUniform
+			}
 			res := h.build(last, &op, pc, nil)
 			if res.Sim.Stuck {
 				v := narrow(simcheck.V("corrupt-record-hang", "%s: loading and building did not finish within 25 s of real time (the uncorrupted project takes milliseconds)", what), idx)
